@@ -21,10 +21,13 @@ const (
 	fpNotifyAfter  = "valuenotifier/notify-after-deregister"        // Wait reports success for a Notify invoked after Deregister had returned
 	fpNoNotify     = "valuenotifier/success-without-notify"         // any other success without a Notify in the listener's life time
 	fpDeregNoError = "valuenotifier/deregistered-listener-no-error" // Wait on a deregistered listener does not return ErrListenerDeregistered
+	fpLost         = "valuenotifier/notified-listener-not-woken"    // sequential history: Notify(value) ran while the listener was registered, yet its Wait parks for ever
 )
 
 // vnOp is one step of a sequential history. K: "L" Listener(value X), "N" Notify(value X),
-// "D" Deregister(listener #X), "W" Wait(listener #X); listeners are numbered in creation order.
+// "D" Deregister(listener #X), "W" Wait(listener #X) with a live context, "C" Wait(listener #X)
+// with an already cancelled context (the third way a listener leaves); listeners are numbered
+// in creation order.
 type vnOp struct {
 	K string `json:"k"`
 	X int    `json:"x"`
@@ -38,6 +41,8 @@ func (o vnOp) String() string {
 		return fmt.Sprintf("Notify(%c)", 'a'+o.X)
 	case "D":
 		return fmt.Sprintf("Deregister(l%d)", o.X)
+	case "C":
+		return fmt.Sprintf("WaitCancelled(l%d)", o.X)
 	default:
 		return fmt.Sprintf("Wait(l%d)", o.X)
 	}
@@ -164,6 +169,10 @@ func (x *seqExec) run(h []vnOp) []string {
 				ls[op.X].Deregister()
 			case "W":
 				out[i] = x.wait(ls[op.X])
+			case "C":
+				ctx, cancel := context.WithCancel(context.Background())
+				cancel()
+				out[i] = outcome(ls[op.X].Wait(ctx))
 			}
 		}()
 	}
@@ -229,6 +238,40 @@ func vnJudge(c *vf.Ctx, rep *reporter, h []vnOp, out []string, onlyLast bool) {
 			}
 		case "D":
 			dereg(ls[op.X], i)
+		case "C":
+			// Wait with an already cancelled context: may report the cancellation in every case
+			// (both select branches can be ready); success still needs a Notify in the window.
+			l := ls[op.X]
+			if judge {
+				got := out[i]
+				end := i
+				if l.dereg >= 0 {
+					end = l.dereg
+				}
+				notified := false
+				for _, j := range notifies[l.val] {
+					if j > l.created && j < end {
+						notified = true
+					}
+				}
+				c.Count("evaluations", 1)
+				c.Count("vn_seq_cancelled_wait_outcome:"+strings.SplitN(got, ":", 2)[0], 1)
+				r := replayRec{Kind: "vn-seq", History: append([]vnOp(nil), h[:i+1]...), Outcomes: append([]string(nil), out[:i+1]...)}
+				switch {
+				case got == "ok" && !notified:
+					fp := fpNoNotify
+					if stale[l.val] {
+						fp = fpStale
+					}
+					rep.viol(fp, fmt.Sprintf("history %s: the last Wait (cancelled context) returned success although no Notify(%c) was called between the creation of l%d and its deregistration/this Wait", histString(h[:i+1]), 'a'+l.val, op.X), r)
+				case got == "ok" && l.dereg >= 0:
+					rep.viol(fpDeregNoError, fmt.Sprintf("history %s: l%d was deregistered at step %d but Wait returned success", histString(h[:i+1]), op.X, l.dereg+1), r)
+				case got != "ok" && got != "dereg" && got != "canceled":
+					c.Count("vn_seq_anomalies", 1)
+					c.Inconclusive("valuenotifier: unexpected outcome " + got + " in " + histString(h[:i+1]))
+				}
+			}
+			dereg(l, i)
 		case "W":
 			l := ls[op.X]
 			if judge {
@@ -266,9 +309,20 @@ func vnJudge(c *vf.Ctx, rep *reporter, h []vnOp, out []string, onlyLast bool) {
 				case wasDereg && (got == "ok" || got == "blocked"):
 					rep.viol(fpDeregNoError, fmt.Sprintf("history %s: l%d was deregistered at step %d but Wait returned %q instead of ErrListenerDeregistered", histString(h[:i+1]), op.X, l.dereg+1, got), r)
 				case !wasDereg && got == "blocked" && notified:
-					c.Count("vn_seq_lost_notifications(not demanded)", 1)
+					// One goroutine, so the Notify ran strictly inside the listener's registration:
+					// its generation was the current one and had to be woken. (Was only counted
+					// while the tree still had the stale-deregistration defect that caused it.)
+					fp := fpLost
 					if stale[l.val] {
-						c.Count("vn_seq_lost_notifications_after_stale_deregister(not demanded)", 1)
+						fp = fpStale
+					}
+					rep.viol(fp, fmt.Sprintf("history %s: Notify(%c) was called after the creation of l%d and before this Wait, l%d was never deregistered, yet the Wait parks for ever (observed parked in its select; returned only after its context was cancelled)", histString(h[:i+1]), 'a'+l.val, op.X, op.X), r)
+				case !wasDereg && got == "ok" && notified:
+					if recreated {
+						c.Count("vn_seq_recreated_listener_woken", 1)
+					}
+					if stale[l.val] {
+						c.Count("vn_seq_woken_after_older_generation_left", 1)
 					}
 				case !wasDereg && got == "dereg":
 					c.Count("vn_seq_spurious_deregistered(not demanded)", 1)
@@ -316,7 +370,7 @@ func vnEnumerate(maxLen int, visit func(h []vnOp)) {
 			h = h[:len(h)-1]
 		}
 		for i := 0; i < nl; i++ {
-			for _, k := range []string{"D", "W"} {
+			for _, k := range []string{"D", "W", "C"} {
 				h = append(h, vnOp{k, i})
 				rec()
 				h = h[:len(h)-1]
